@@ -783,7 +783,7 @@ def run_env_multi(item: dict) -> dict:
 INJECTED_ENV = ["SOURCE_DATE_EPOCH", "STEPUP_ROOT", "STEPUP_BUILD_LOG_LEVEL"]
 
 
-ABSORBED_FEATURES = (("amend", 0.4), ("glob", 0.4), ("optional", 0.4), ("envedit", 0.3))
+ABSORBED_FEATURES = (("amend", 0.4), ("glob", 0.4), ("optional", 0.4), ("envedit", 0.3), ("labels", 0.5))
 
 
 def gen_absorbed(rng: random.Random) -> tuple[e3.Project, list, list, str, dict | None]:
@@ -800,7 +800,10 @@ def gen_absorbed(rng: random.Random) -> tuple[e3.Project, list, list, str, dict 
                 outputs; the edit changes a matching file and/or adds a new match (the owner of the pattern is
                 rerun and recycles what it declared before; the new step runs);
       optional  an OPTIONAL step to (a0.out -> to.out) that a mandatory step tm needs;
-      envedit   the variable VA changes together with the sources (restart flavour only).
+      envedit   the variable VA changes together with the sources (restart flavour only);
+      labels    the steps behind the absorbers (tb, tw, td, te, to, tm, tgc) carry commands with a tab, quotes,
+                non-ASCII characters or 300 more characters (SPECIAL_LABEL_SUFFIXES): the label is an ingredient of
+                the step hash and has a display form with escapes (Run.description).
     engine: for the fixed-plan shapes (chain without amend / glob) the description of the project as a project of
     model/Engine.v with the two worlds, for the evaluation of the model inside Coq (None otherwise)."""
     variant = rng.choice(["chain", "chain", "nested"])
@@ -823,6 +826,8 @@ def gen_absorbed(rng: random.Random) -> tuple[e3.Project, list, list, str, dict 
         return env
 
     def step(label, inp, out, env, need=None):
+        if "labels" in feats and rng.random() < 0.7:
+            label = label + rng.choice(SPECIAL_LABEL_SUFFIXES)
         a = {"op": "step", "label": label, "inp": inp, "out": out}
         if env:
             a["env"] = env
@@ -908,13 +913,13 @@ def gen_absorbed(rng: random.Random) -> tuple[e3.Project, list, list, str, dict 
         srcs = dict(sources)
         srcs.update({script: "script " + script for _l, script, _a in mamend})
         # the amend engine has no `need`: the idle optional step (never dispatched) is left out of its project
-        engine = {"steps": [s for s in msteps if s[0] != "ti"], "amend": mamend, "sources": srcs, "env": dict(env),
+        engine = {"steps": [s for s in msteps if (s[0].split() or [""])[0] != "ti"], "amend": mamend, "sources": srcs, "env": dict(env),
                   "edits": [e for e in edits if e["op"] in ("write", "setenv")]}
     elif "amend" not in feats:
         # the plan after the edit: a new match of the pattern adds its absorber (declared by the rerun owner)
         after = list(msteps)
         if any(e["op"] == "write" and e["path"] == "gq_7.txt" for e in edits):
-            k = next(i for i, s in enumerate(after) if s[0] == "tgc")
+            k = next(i for i, s in enumerate(after) if (s[0].split() or [""])[0] == "tgc")
             after.insert(k, ("gab gq_7.txt", ["gq_7.txt"], [], ["gqo_gq_7.out"], True))
         engine = {"steps": msteps, "steps_after": after, "sources": dict(sources), "env": dict(env),
                   "optional": sorted(optional),
@@ -1336,6 +1341,26 @@ def _noop_variants(item, rng):
     return [] if item.get("skip_noop") else ["nochange", "samecontent"]
 
 
+def _raw_label(description: str, pre: dict, post_labels: dict) -> str:
+    """Reporter events carry Run.description = the label with control characters escaped for the terminal; map it back
+    to the label of a step of the graph."""
+    if description in pre or description in post_labels:
+        return description
+    try:
+        from stepup.core.utils import escape_control_chars
+    except ImportError:
+        return description
+    for label in list(pre) + list(post_labels):
+        if escape_control_chars(label) == description:
+            return label
+    return description
+
+
+# step labels (= commands) that a digest or a display routine may treat differently: a control character (tab), both
+# kinds of quotes, non-ASCII, a very long command.  (A newline is left out: the canonical graph text is line based.)
+SPECIAL_LABEL_SUFFIXES = ["\targ", " 'single' \"double\"", " \u00e9\u00fc\u6f22", " " + "x" * 300, "\twith\ttabs 'q' \u00e9"]
+
+
 def project_shape(pre: dict) -> list:
     """Features of the recorded graph a cone rebuild starts from (for the distribution in the evidence)."""
     att = {l: i for l, i in pre.items() if not i["detached"]}
@@ -1349,6 +1374,10 @@ def project_shape(pre: dict) -> list:
         feats.append("globs")
     if any(i["env"] for i in att.values()):
         feats.append("env_vars")
+    if any(any(ord(c) < 32 for c in l) for l in att):
+        feats.append("label_with_control_character")
+    if any(len(l) > 200 or any(ord(c) > 127 for c in l) or "'" in l or '"' in l for l in att):
+        feats.append("label_long_quoted_or_non_ascii")
     if any(i["need"] == "OPTIONAL" and i["state"] == "PENDING" for i in att.values()):
         feats.append("optional_idle")
     if any(i["need"] == "OPTIONAL" and i["state"] == "SUCCEEDED" for i in att.values()):
@@ -1374,7 +1403,7 @@ def _cone_check(item, rng, proj, ref, rebuild, flavour, report, count, fail, roo
     report["nbuilds"] += 1
     post = graph_relations(new.graph)
     executed = new.executed()
-    skipped = sorted({e[1] for e in new.events if e[0] == "SKIP"})
+    skipped = sorted({_raw_label(e[1], pre, post_labels=graph_relations(new.graph)) for e in new.events if e[0] == "SKIP"})
     count("cone:rebuilds")
     count("cone:executed", len(executed))
     count("cone:skipped", len(skipped))
